@@ -203,7 +203,7 @@ def tlc(module, cfg=None, workers=NCPU, timeout=900, env=None, simulate=None, de
     """Run TLC on spec/<module>.tla with spec/<cfg>. Returns TlcResult. Never raises for a property violation."""
     cwd = cwd or SPEC
     meta = scratch('tlc')
-    jopts = ['-XX:+UseParallelGC', '-Xmx' + heap, '-Xss64m']
+    jopts = ['-XX:+UseParallelGC', '-Xmx' + heap, '-Xss64m', '-Djava.io.tmpdir=' + meta]   # TLC's tlc-* temp dirs go with the metadir
     if dfs:
         jopts.append('-Dtlc2.tool.queue.IStateQueue=StateDeque')
     cmd = ['java'] + jopts + ['-cp', TLA_CP, 'tlc2.TLC', '-metadir', meta, '-workers', str(workers), '-noGenerateSpecTE']
@@ -312,7 +312,43 @@ def count_lines(path):
     return n
 
 
+_TV_LOG = {}     # sha1 of a rejected trace -> how it was validated (written next to the trace in the replay directory)
+
+
+def _sha_file(path):
+    import hashlib
+    h = hashlib.sha1()
+    with open(path, 'rb') as f:
+        for blk in iter(lambda: f.read(1 << 20), b''): h.update(blk)
+    return h.hexdigest()
+
+
 def trace_validate(module, cfg, trace_path, timeout=900, extra_env=None, heap='6g', dfs=False, silent_steps=False, header_lines=0):
+    out = _trace_validate(module, cfg, trace_path, timeout, extra_env, heap, dfs, silent_steps, header_lines)
+    if not out['accepted']:
+        try:
+            _TV_LOG[_sha_file(trace_path)] = dict(module=module, cfg=cfg, header_lines=header_lines, silent_steps=silent_steps, heap=heap,
+                                                  extra_env=extra_env or {}, violated=out['violated'], prefix=out['prefix'], lines=out['lines'])
+        except OSError:
+            pass
+    return out
+
+
+def save_tv(rd):
+    """Write tv.json into a replay directory: for every stored trace that a validation of this process rejected,
+    the module / configuration it was validated with (./check replay re-runs exactly that)."""
+    if not rd or not os.path.isdir(rd): return
+    ent = {}
+    for fn in sorted(os.listdir(rd)):
+        if fn.endswith('.ndjson'):
+            try: h = _sha_file(os.path.join(rd, fn))
+            except OSError: continue
+            if h in _TV_LOG: ent[fn] = _TV_LOG[h]
+    if ent:
+        json.dump(ent, open(os.path.join(rd, 'tv.json'), 'w'), indent=1)
+
+
+def _trace_validate(module, cfg, trace_path, timeout=900, extra_env=None, heap='6g', dfs=False, silent_steps=False, header_lines=0):
     """Trace validation. Every trace action consumes exactly one line (l' = l + 1), so the depth of the
     explored graph is 1 + the longest prefix the specification explains: accepted <=> depth = lines + 1 and
     no invariant was violated on the way. With silent_steps the cfg must carry INVARIANT NotAccepted and
@@ -396,6 +432,7 @@ class Outcome:
         self.prop = prop; self.violations = []; self.known = []
 
     def violation(self, what, replay, shape=None):
+        save_tv(replay)
         f = match_finding(self.prop, shape or {}) if shape is not None else None
         if f is not None:
             if f['id'] not in [k['id'] for k in self.known]:
